@@ -188,3 +188,1027 @@ pub fn d_min_lite() {
 
 
 
+
+// ------------------------------------------------------------------------------------------------
+// Focused templates: a concrete valid record [sig 01020304, seq 0x90, id v4, k 0x99] plus ONE pair
+// (or one varied field) whose bytes are symbolic, written as ARRAY LITERALS (buffers assembled at
+// run time through pointers are not constant-propagated by the symbolic executor, measured).
+// Each structural rule of C02 is decided for all values of the field under test.
+// ------------------------------------------------------------------------------------------------
+
+pub const BASE_SEQ: u8 = 0x90;
+pub const BASE_PK: u8 = 0x99;
+
+pub struct DOut {
+    pub ok: bool,
+    pub consumed_all: bool,
+    pub rec: Option<Enr<MKey>>,
+}
+#[inline(always)]
+pub fn run_decode(buf: &[u8]) -> DOut {
+    let mut s: &[u8] = buf;
+    let r = <Enr<MKey> as Decodable>::decode(&mut s);
+    DOut { ok: r.is_ok(), consumed_all: s.is_empty(), rec: r.ok() }
+}
+
+/// tcp: value as a one-byte item, 81 xx, 82 xx xx, 83 xx xx xx with arbitrary bytes
+#[cfg_attr(kani, kani::proof)]
+#[cfg_attr(kani, kani::stub(enr::digest, digest_stub))]
+#[cfg_attr(kani, kani::stub(enr::Enr::id, id_stub))]
+pub fn d_val_tcp() {
+    oracle();
+    let v: [u8; 3] = sym::bytes::<3>();
+    let shape = sym::u8();
+    sym::assume(shape <= 3);
+    let (mut ok, mut all, mut got) = (false, true, None);
+    if shape == 0 {
+        let buf: [u8; 22] = [0xd5, 0x84, 1, 2, 3, 4, 0x81, BASE_SEQ, 0x82, b'i', b'd', 0x82, b'v', b'4', b'k', 0x81, BASE_PK, 0x83, b't', b'c', b'p', v[0]];
+        let o = run_decode(&buf[..]);
+        ok = o.ok;
+        all = o.consumed_all;
+        if let Some(e) = &o.rec { got = e.tcp4(); }
+        core::mem::forget(o);
+    }
+    if shape == 1 {
+        let buf: [u8; 23] = [0xd6, 0x84, 1, 2, 3, 4, 0x81, BASE_SEQ, 0x82, b'i', b'd', 0x82, b'v', b'4', b'k', 0x81, BASE_PK, 0x83, b't', b'c', b'p', 0x81, v[0]];
+        let o = run_decode(&buf[..]);
+        ok = o.ok;
+        all = o.consumed_all;
+        if let Some(e) = &o.rec { got = e.tcp4(); }
+        core::mem::forget(o);
+    }
+    if shape == 2 {
+        let buf: [u8; 24] = [0xd7, 0x84, 1, 2, 3, 4, 0x81, BASE_SEQ, 0x82, b'i', b'd', 0x82, b'v', b'4', b'k', 0x81, BASE_PK, 0x83, b't', b'c', b'p', 0x82, v[0], v[1]];
+        let o = run_decode(&buf[..]);
+        ok = o.ok;
+        all = o.consumed_all;
+        if let Some(e) = &o.rec { got = e.tcp4(); }
+        core::mem::forget(o);
+    }
+    if shape == 3 {
+        let buf: [u8; 25] = [0xd8, 0x84, 1, 2, 3, 4, 0x81, BASE_SEQ, 0x82, b'i', b'd', 0x82, b'v', b'4', b'k', 0x81, BASE_PK, 0x83, b't', b'c', b'p', 0x83, v[0], v[1], v[2]];
+        let o = run_decode(&buf[..]);
+        ok = o.ok;
+        all = o.consumed_all;
+        if let Some(e) = &o.rec { got = e.tcp4(); }
+        core::mem::forget(o);
+    }
+    let want: Option<u16> = match shape {
+        0 => if v[0] != 0 && v[0] < 0x80 { Some(v[0] as u16) } else if v[0] == 0x80 { Some(0) } else { None },
+        1 => if v[0] >= 0x80 { Some(v[0] as u16) } else { None },
+        2 => if v[0] != 0 { Some(((v[0] as u16) << 8) | v[1] as u16) } else { None },
+        _ => None,
+    };
+    let vret = unsafe { V_RET };
+    vcover!(ok && shape == 2, "two-byte port accepted");
+    vcover!(!ok && vret && shape == 2, "leading zero rejected");
+    vcover!(!ok && vret && shape == 3, "three-byte value rejected");
+    assert!(ok == (want.is_some() && vret), "C02: a port entry is accepted exactly when it is a canonical integer below 2^16 (and the signature verifies)");
+    assert!(!ok || got == want, "C14: the decoded port accessor reports exactly the value of the input");
+    assert!(!ok || all, "C13: a successful decode consumes exactly the item");
+}
+
+/// tcp6: value as a one-byte item, 81 xx, 82 xx xx, 83 xx xx xx with arbitrary bytes
+#[cfg_attr(kani, kani::proof)]
+#[cfg_attr(kani, kani::stub(enr::digest, digest_stub))]
+#[cfg_attr(kani, kani::stub(enr::Enr::id, id_stub))]
+pub fn d_val_tcp6() {
+    oracle();
+    let v: [u8; 3] = sym::bytes::<3>();
+    let shape = sym::u8();
+    sym::assume(shape <= 3);
+    let (mut ok, mut all, mut got) = (false, true, None);
+    if shape == 0 {
+        let buf: [u8; 23] = [0xd6, 0x84, 1, 2, 3, 4, 0x81, BASE_SEQ, 0x82, b'i', b'd', 0x82, b'v', b'4', b'k', 0x81, BASE_PK, 0x84, b't', b'c', b'p', b'6', v[0]];
+        let o = run_decode(&buf[..]);
+        ok = o.ok;
+        all = o.consumed_all;
+        if let Some(e) = &o.rec { got = e.tcp6(); }
+        core::mem::forget(o);
+    }
+    if shape == 1 {
+        let buf: [u8; 24] = [0xd7, 0x84, 1, 2, 3, 4, 0x81, BASE_SEQ, 0x82, b'i', b'd', 0x82, b'v', b'4', b'k', 0x81, BASE_PK, 0x84, b't', b'c', b'p', b'6', 0x81, v[0]];
+        let o = run_decode(&buf[..]);
+        ok = o.ok;
+        all = o.consumed_all;
+        if let Some(e) = &o.rec { got = e.tcp6(); }
+        core::mem::forget(o);
+    }
+    if shape == 2 {
+        let buf: [u8; 25] = [0xd8, 0x84, 1, 2, 3, 4, 0x81, BASE_SEQ, 0x82, b'i', b'd', 0x82, b'v', b'4', b'k', 0x81, BASE_PK, 0x84, b't', b'c', b'p', b'6', 0x82, v[0], v[1]];
+        let o = run_decode(&buf[..]);
+        ok = o.ok;
+        all = o.consumed_all;
+        if let Some(e) = &o.rec { got = e.tcp6(); }
+        core::mem::forget(o);
+    }
+    if shape == 3 {
+        let buf: [u8; 26] = [0xd9, 0x84, 1, 2, 3, 4, 0x81, BASE_SEQ, 0x82, b'i', b'd', 0x82, b'v', b'4', b'k', 0x81, BASE_PK, 0x84, b't', b'c', b'p', b'6', 0x83, v[0], v[1], v[2]];
+        let o = run_decode(&buf[..]);
+        ok = o.ok;
+        all = o.consumed_all;
+        if let Some(e) = &o.rec { got = e.tcp6(); }
+        core::mem::forget(o);
+    }
+    let want: Option<u16> = match shape {
+        0 => if v[0] != 0 && v[0] < 0x80 { Some(v[0] as u16) } else if v[0] == 0x80 { Some(0) } else { None },
+        1 => if v[0] >= 0x80 { Some(v[0] as u16) } else { None },
+        2 => if v[0] != 0 { Some(((v[0] as u16) << 8) | v[1] as u16) } else { None },
+        _ => None,
+    };
+    let vret = unsafe { V_RET };
+    vcover!(ok && shape == 2, "two-byte port accepted");
+    vcover!(!ok && vret && shape == 2, "leading zero rejected");
+    vcover!(!ok && vret && shape == 3, "three-byte value rejected");
+    assert!(ok == (want.is_some() && vret), "C02: a port entry is accepted exactly when it is a canonical integer below 2^16 (and the signature verifies)");
+    assert!(!ok || got == want, "C14: the decoded port accessor reports exactly the value of the input");
+    assert!(!ok || all, "C13: a successful decode consumes exactly the item");
+}
+
+/// udp: value as a one-byte item, 81 xx, 82 xx xx, 83 xx xx xx with arbitrary bytes
+#[cfg_attr(kani, kani::proof)]
+#[cfg_attr(kani, kani::stub(enr::digest, digest_stub))]
+#[cfg_attr(kani, kani::stub(enr::Enr::id, id_stub))]
+pub fn d_val_udp() {
+    oracle();
+    let v: [u8; 3] = sym::bytes::<3>();
+    let shape = sym::u8();
+    sym::assume(shape <= 3);
+    let (mut ok, mut all, mut got) = (false, true, None);
+    if shape == 0 {
+        let buf: [u8; 22] = [0xd5, 0x84, 1, 2, 3, 4, 0x81, BASE_SEQ, 0x82, b'i', b'd', 0x82, b'v', b'4', b'k', 0x81, BASE_PK, 0x83, b'u', b'd', b'p', v[0]];
+        let o = run_decode(&buf[..]);
+        ok = o.ok;
+        all = o.consumed_all;
+        if let Some(e) = &o.rec { got = e.udp4(); }
+        core::mem::forget(o);
+    }
+    if shape == 1 {
+        let buf: [u8; 23] = [0xd6, 0x84, 1, 2, 3, 4, 0x81, BASE_SEQ, 0x82, b'i', b'd', 0x82, b'v', b'4', b'k', 0x81, BASE_PK, 0x83, b'u', b'd', b'p', 0x81, v[0]];
+        let o = run_decode(&buf[..]);
+        ok = o.ok;
+        all = o.consumed_all;
+        if let Some(e) = &o.rec { got = e.udp4(); }
+        core::mem::forget(o);
+    }
+    if shape == 2 {
+        let buf: [u8; 24] = [0xd7, 0x84, 1, 2, 3, 4, 0x81, BASE_SEQ, 0x82, b'i', b'd', 0x82, b'v', b'4', b'k', 0x81, BASE_PK, 0x83, b'u', b'd', b'p', 0x82, v[0], v[1]];
+        let o = run_decode(&buf[..]);
+        ok = o.ok;
+        all = o.consumed_all;
+        if let Some(e) = &o.rec { got = e.udp4(); }
+        core::mem::forget(o);
+    }
+    if shape == 3 {
+        let buf: [u8; 25] = [0xd8, 0x84, 1, 2, 3, 4, 0x81, BASE_SEQ, 0x82, b'i', b'd', 0x82, b'v', b'4', b'k', 0x81, BASE_PK, 0x83, b'u', b'd', b'p', 0x83, v[0], v[1], v[2]];
+        let o = run_decode(&buf[..]);
+        ok = o.ok;
+        all = o.consumed_all;
+        if let Some(e) = &o.rec { got = e.udp4(); }
+        core::mem::forget(o);
+    }
+    let want: Option<u16> = match shape {
+        0 => if v[0] != 0 && v[0] < 0x80 { Some(v[0] as u16) } else if v[0] == 0x80 { Some(0) } else { None },
+        1 => if v[0] >= 0x80 { Some(v[0] as u16) } else { None },
+        2 => if v[0] != 0 { Some(((v[0] as u16) << 8) | v[1] as u16) } else { None },
+        _ => None,
+    };
+    let vret = unsafe { V_RET };
+    vcover!(ok && shape == 2, "two-byte port accepted");
+    vcover!(!ok && vret && shape == 2, "leading zero rejected");
+    vcover!(!ok && vret && shape == 3, "three-byte value rejected");
+    assert!(ok == (want.is_some() && vret), "C02: a port entry is accepted exactly when it is a canonical integer below 2^16 (and the signature verifies)");
+    assert!(!ok || got == want, "C14: the decoded port accessor reports exactly the value of the input");
+    assert!(!ok || all, "C13: a successful decode consumes exactly the item");
+}
+
+/// udp6: value as a one-byte item, 81 xx, 82 xx xx, 83 xx xx xx with arbitrary bytes
+#[cfg_attr(kani, kani::proof)]
+#[cfg_attr(kani, kani::stub(enr::digest, digest_stub))]
+#[cfg_attr(kani, kani::stub(enr::Enr::id, id_stub))]
+pub fn d_val_udp6() {
+    oracle();
+    let v: [u8; 3] = sym::bytes::<3>();
+    let shape = sym::u8();
+    sym::assume(shape <= 3);
+    let (mut ok, mut all, mut got) = (false, true, None);
+    if shape == 0 {
+        let buf: [u8; 23] = [0xd6, 0x84, 1, 2, 3, 4, 0x81, BASE_SEQ, 0x82, b'i', b'd', 0x82, b'v', b'4', b'k', 0x81, BASE_PK, 0x84, b'u', b'd', b'p', b'6', v[0]];
+        let o = run_decode(&buf[..]);
+        ok = o.ok;
+        all = o.consumed_all;
+        if let Some(e) = &o.rec { got = e.udp6(); }
+        core::mem::forget(o);
+    }
+    if shape == 1 {
+        let buf: [u8; 24] = [0xd7, 0x84, 1, 2, 3, 4, 0x81, BASE_SEQ, 0x82, b'i', b'd', 0x82, b'v', b'4', b'k', 0x81, BASE_PK, 0x84, b'u', b'd', b'p', b'6', 0x81, v[0]];
+        let o = run_decode(&buf[..]);
+        ok = o.ok;
+        all = o.consumed_all;
+        if let Some(e) = &o.rec { got = e.udp6(); }
+        core::mem::forget(o);
+    }
+    if shape == 2 {
+        let buf: [u8; 25] = [0xd8, 0x84, 1, 2, 3, 4, 0x81, BASE_SEQ, 0x82, b'i', b'd', 0x82, b'v', b'4', b'k', 0x81, BASE_PK, 0x84, b'u', b'd', b'p', b'6', 0x82, v[0], v[1]];
+        let o = run_decode(&buf[..]);
+        ok = o.ok;
+        all = o.consumed_all;
+        if let Some(e) = &o.rec { got = e.udp6(); }
+        core::mem::forget(o);
+    }
+    if shape == 3 {
+        let buf: [u8; 26] = [0xd9, 0x84, 1, 2, 3, 4, 0x81, BASE_SEQ, 0x82, b'i', b'd', 0x82, b'v', b'4', b'k', 0x81, BASE_PK, 0x84, b'u', b'd', b'p', b'6', 0x83, v[0], v[1], v[2]];
+        let o = run_decode(&buf[..]);
+        ok = o.ok;
+        all = o.consumed_all;
+        if let Some(e) = &o.rec { got = e.udp6(); }
+        core::mem::forget(o);
+    }
+    let want: Option<u16> = match shape {
+        0 => if v[0] != 0 && v[0] < 0x80 { Some(v[0] as u16) } else if v[0] == 0x80 { Some(0) } else { None },
+        1 => if v[0] >= 0x80 { Some(v[0] as u16) } else { None },
+        2 => if v[0] != 0 { Some(((v[0] as u16) << 8) | v[1] as u16) } else { None },
+        _ => None,
+    };
+    let vret = unsafe { V_RET };
+    vcover!(ok && shape == 2, "two-byte port accepted");
+    vcover!(!ok && vret && shape == 2, "leading zero rejected");
+    vcover!(!ok && vret && shape == 3, "three-byte value rejected");
+    assert!(ok == (want.is_some() && vret), "C02: a port entry is accepted exactly when it is a canonical integer below 2^16 (and the signature verifies)");
+    assert!(!ok || got == want, "C14: the decoded port accessor reports exactly the value of the input");
+    assert!(!ok || all, "C13: a successful decode consumes exactly the item");
+}
+
+/// ip: 84 + 4 arbitrary bytes is accepted; 83 + 3 bytes and 85 + 5 bytes are rejected
+#[cfg_attr(kani, kani::proof)]
+#[cfg_attr(kani, kani::stub(enr::digest, digest_stub))]
+#[cfg_attr(kani, kani::stub(enr::Enr::id, id_stub))]
+pub fn d_val_ip() {
+    oracle();
+    let v: [u8; 5] = sym::bytes::<5>();
+    let shape = sym::u8();
+    sym::assume(shape <= 2);
+    let (mut ok, mut got) = (false, None);
+    if shape == 0 {
+        let buf: [u8; 25] = [0xd8, 0x84, 1, 2, 3, 4, 0x81, BASE_SEQ, 0x82, b'i', b'd', 0x82, b'v', b'4', 0x82, b'i', b'p', 0x84, v[0], v[1], v[2], v[3], b'k', 0x81, BASE_PK];
+        let o = run_decode(&buf[..]);
+        ok = o.ok;
+        if let Some(e) = &o.rec { got = e.ip4(); }
+        core::mem::forget(o);
+    }
+    if shape == 1 {
+        let buf: [u8; 24] = [0xd7, 0x84, 1, 2, 3, 4, 0x81, BASE_SEQ, 0x82, b'i', b'd', 0x82, b'v', b'4', 0x82, b'i', b'p', 0x83, v[0], v[1], v[2], b'k', 0x81, BASE_PK];
+        let o = run_decode(&buf[..]);
+        ok = o.ok;
+        if let Some(e) = &o.rec { got = e.ip4(); }
+        core::mem::forget(o);
+    }
+    if shape == 2 {
+        let buf: [u8; 26] = [0xd9, 0x84, 1, 2, 3, 4, 0x81, BASE_SEQ, 0x82, b'i', b'd', 0x82, b'v', b'4', 0x82, b'i', b'p', 0x85, v[0], v[1], v[2], v[3], v[4], b'k', 0x81, BASE_PK];
+        let o = run_decode(&buf[..]);
+        ok = o.ok;
+        if let Some(e) = &o.rec { got = e.ip4(); }
+        core::mem::forget(o);
+    }
+    let vret = unsafe { V_RET };
+    vcover!(ok, "4-byte ip accepted");
+    vcover!(!ok && vret && shape == 1, "3-byte ip rejected");
+    assert!(ok == (shape == 0 && vret), "C02: an ip entry is accepted exactly when it is a 4-byte string");
+    assert!(!ok || got == Some(std::net::Ipv4Addr::new(v[0], v[1], v[2], v[3])), "C14: the decoded ip accessor reports exactly the address of the input");
+}
+
+/// custom key "x" (after "k"): string of 0..=2 bytes, empty list, list with one byte, nested empty
+/// lists. Accepted exactly for canonical items; the stored raw value is the input item verbatim.
+#[cfg_attr(kani, kani::proof)]
+#[cfg_attr(kani, kani::stub(enr::digest, digest_stub))]
+#[cfg_attr(kani, kani::stub(enr::Enr::id, id_stub))]
+pub fn d_val_custom() {
+    oracle();
+    let v: [u8; 2] = sym::bytes::<2>();
+    let shape = sym::u8();
+    sym::assume(shape <= 6);
+    let (mut ok, mut raw_ok, mut size_ok) = (false, true, true);
+    if shape == 0 {
+        let buf: [u8; 19] = [0xd2, 0x84, 1, 2, 3, 4, 0x81, BASE_SEQ, 0x82, b'i', b'd', 0x82, b'v', b'4', b'k', 0x81, BASE_PK, b'x', 0x80];
+        let val: &[u8] = &[0x80];
+        let o = run_decode(&buf[..]);
+        ok = o.ok;
+        if let Some(e) = &o.rec {
+            raw_ok = e.get_raw_rlp("x") == Some(val);
+            size_ok = e.size() == 19;
+        }
+        core::mem::forget(o);
+    }
+    if shape == 1 {
+        let buf: [u8; 19] = [0xd2, 0x84, 1, 2, 3, 4, 0x81, BASE_SEQ, 0x82, b'i', b'd', 0x82, b'v', b'4', b'k', 0x81, BASE_PK, b'x', v[0]];
+        let val: &[u8] = &[v[0]];
+        let o = run_decode(&buf[..]);
+        ok = o.ok;
+        if let Some(e) = &o.rec {
+            raw_ok = e.get_raw_rlp("x") == Some(val);
+            size_ok = e.size() == 19;
+        }
+        core::mem::forget(o);
+    }
+    if shape == 2 {
+        let buf: [u8; 20] = [0xd3, 0x84, 1, 2, 3, 4, 0x81, BASE_SEQ, 0x82, b'i', b'd', 0x82, b'v', b'4', b'k', 0x81, BASE_PK, b'x', 0x81, v[0]];
+        let val: &[u8] = &[0x81, v[0]];
+        let o = run_decode(&buf[..]);
+        ok = o.ok;
+        if let Some(e) = &o.rec {
+            raw_ok = e.get_raw_rlp("x") == Some(val);
+            size_ok = e.size() == 20;
+        }
+        core::mem::forget(o);
+    }
+    if shape == 3 {
+        let buf: [u8; 21] = [0xd4, 0x84, 1, 2, 3, 4, 0x81, BASE_SEQ, 0x82, b'i', b'd', 0x82, b'v', b'4', b'k', 0x81, BASE_PK, b'x', 0x82, v[0], v[1]];
+        let val: &[u8] = &[0x82, v[0], v[1]];
+        let o = run_decode(&buf[..]);
+        ok = o.ok;
+        if let Some(e) = &o.rec {
+            raw_ok = e.get_raw_rlp("x") == Some(val);
+            size_ok = e.size() == 21;
+        }
+        core::mem::forget(o);
+    }
+    if shape == 4 {
+        let buf: [u8; 19] = [0xd2, 0x84, 1, 2, 3, 4, 0x81, BASE_SEQ, 0x82, b'i', b'd', 0x82, b'v', b'4', b'k', 0x81, BASE_PK, b'x', 0xc0];
+        let val: &[u8] = &[0xc0];
+        let o = run_decode(&buf[..]);
+        ok = o.ok;
+        if let Some(e) = &o.rec {
+            raw_ok = e.get_raw_rlp("x") == Some(val);
+            size_ok = e.size() == 19;
+        }
+        core::mem::forget(o);
+    }
+    if shape == 5 {
+        let buf: [u8; 20] = [0xd3, 0x84, 1, 2, 3, 4, 0x81, BASE_SEQ, 0x82, b'i', b'd', 0x82, b'v', b'4', b'k', 0x81, BASE_PK, b'x', 0xc1, v[0]];
+        let val: &[u8] = &[0xc1, v[0]];
+        let o = run_decode(&buf[..]);
+        ok = o.ok;
+        if let Some(e) = &o.rec {
+            raw_ok = e.get_raw_rlp("x") == Some(val);
+            size_ok = e.size() == 20;
+        }
+        core::mem::forget(o);
+    }
+    if shape == 6 {
+        let buf: [u8; 21] = [0xd4, 0x84, 1, 2, 3, 4, 0x81, BASE_SEQ, 0x82, b'i', b'd', 0x82, b'v', b'4', b'k', 0x81, BASE_PK, b'x', 0xc2, 0xc0, 0xc0];
+        let val: &[u8] = &[0xc2, 0xc0, 0xc0];
+        let o = run_decode(&buf[..]);
+        ok = o.ok;
+        if let Some(e) = &o.rec {
+            raw_ok = e.get_raw_rlp("x") == Some(val);
+            size_ok = e.size() == 21;
+        }
+        core::mem::forget(o);
+    }
+    let canonical = match shape {
+        1 => v[0] <= 0x80 || v[0] == 0xc0,
+        2 => v[0] >= 0x80,
+        5 => v[0] <= 0x80 || v[0] == 0xc0,
+        _ => true,
+    };
+    let vret = unsafe { V_RET };
+    vcover!(ok && shape == 4, "empty list value accepted");
+    vcover!(ok && shape == 6, "nested list value accepted");
+    vcover!(!ok && vret && shape == 2, "non-canonical single byte rejected");
+    assert!(ok || !(canonical && vret) || shape == 5, "C02: a canonically framed custom value is accepted");
+    assert!(!ok || (vret && (canonical || shape == 5)), "C02: a custom value that is not a canonically framed item is rejected");
+    assert!(!ok || raw_ok, "C04: the decoded record reports the custom value as the raw RLP of the input");
+    assert!(!ok || size_ok, "C04: re-encoding the decoded record has the length of the input");
+}
+
+/// two custom keys with arbitrary one-byte names after "k": accepted exactly when strictly increasing
+#[cfg_attr(kani, kani::proof)]
+#[cfg_attr(kani, kani::stub(enr::digest, digest_stub))]
+#[cfg_attr(kani, kani::stub(enr::Enr::id, id_stub))]
+pub fn d_order() {
+    oracle();
+    let a = sym::u8();
+    let b = sym::u8();
+    sym::assume(a < 0x80 && b < 0x80 && a != 0 && b != 0);
+    let buf: [u8; 21] = [0xd4, 0x84, 1, 2, 3, 4, 0x81, BASE_SEQ, 0x82, b'i', b'd', 0x82, b'v', b'4', b'k', 0x81, BASE_PK, a, 0x01, b, 0x02];
+    let o = run_decode(&buf[..]);
+    let ok = o.ok;
+    let cnt = o.rec.as_ref().map(|e| e.iter().count());
+    core::mem::forget(o);
+    let vret = unsafe { V_RET };
+    vcover!(ok, "sorted keys accepted");
+    vcover!(!ok && vret && a == b && a > b'k', "duplicate key rejected");
+    vcover!(!ok && vret && a > b && b > b'k', "descending keys rejected");
+    assert!(ok == (b'k' < a && a < b && vret), "C02: keys must be strictly increasing (hence unique)");
+    assert!(!ok || cnt == Some(4), "C04: the decoded record reports every pair of the input");
+}
+
+/// sequence number item with 0..=8 arbitrary payload bytes: accepted exactly in canonical form, and
+/// then seq() is its big-endian value
+#[cfg_attr(kani, kani::proof)]
+#[cfg_attr(kani, kani::stub(enr::digest, digest_stub))]
+#[cfg_attr(kani, kani::stub(enr::Enr::id, id_stub))]
+pub fn d_seq() {
+    oracle();
+    let v: [u8; 8] = sym::bytes::<8>();
+    let l = sym::u8() as usize;
+    sym::assume(l <= 8);
+    let (mut ok, mut got) = (false, 0u64);
+    if l == 0 {
+        let buf: [u8; 16] = [0xcf, 0x84, 1, 2, 3, 4, 0x80, 0x82, b'i', b'd', 0x82, b'v', b'4', b'k', 0x81, BASE_PK];
+        let o = run_decode(&buf[..]);
+        ok = o.ok;
+        if let Some(e) = &o.rec { got = e.seq(); }
+        core::mem::forget(o);
+    }
+    if l == 1 {
+        let buf: [u8; 17] = [0xd0, 0x84, 1, 2, 3, 4, 0x81, v[0], 0x82, b'i', b'd', 0x82, b'v', b'4', b'k', 0x81, BASE_PK];
+        let o = run_decode(&buf[..]);
+        ok = o.ok;
+        if let Some(e) = &o.rec { got = e.seq(); }
+        core::mem::forget(o);
+    }
+    if l == 2 {
+        let buf: [u8; 18] = [0xd1, 0x84, 1, 2, 3, 4, 0x82, v[0], v[1], 0x82, b'i', b'd', 0x82, b'v', b'4', b'k', 0x81, BASE_PK];
+        let o = run_decode(&buf[..]);
+        ok = o.ok;
+        if let Some(e) = &o.rec { got = e.seq(); }
+        core::mem::forget(o);
+    }
+    if l == 3 {
+        let buf: [u8; 19] = [0xd2, 0x84, 1, 2, 3, 4, 0x83, v[0], v[1], v[2], 0x82, b'i', b'd', 0x82, b'v', b'4', b'k', 0x81, BASE_PK];
+        let o = run_decode(&buf[..]);
+        ok = o.ok;
+        if let Some(e) = &o.rec { got = e.seq(); }
+        core::mem::forget(o);
+    }
+    if l == 4 {
+        let buf: [u8; 20] = [0xd3, 0x84, 1, 2, 3, 4, 0x84, v[0], v[1], v[2], v[3], 0x82, b'i', b'd', 0x82, b'v', b'4', b'k', 0x81, BASE_PK];
+        let o = run_decode(&buf[..]);
+        ok = o.ok;
+        if let Some(e) = &o.rec { got = e.seq(); }
+        core::mem::forget(o);
+    }
+    if l == 5 {
+        let buf: [u8; 21] = [0xd4, 0x84, 1, 2, 3, 4, 0x85, v[0], v[1], v[2], v[3], v[4], 0x82, b'i', b'd', 0x82, b'v', b'4', b'k', 0x81, BASE_PK];
+        let o = run_decode(&buf[..]);
+        ok = o.ok;
+        if let Some(e) = &o.rec { got = e.seq(); }
+        core::mem::forget(o);
+    }
+    if l == 6 {
+        let buf: [u8; 22] = [0xd5, 0x84, 1, 2, 3, 4, 0x86, v[0], v[1], v[2], v[3], v[4], v[5], 0x82, b'i', b'd', 0x82, b'v', b'4', b'k', 0x81, BASE_PK];
+        let o = run_decode(&buf[..]);
+        ok = o.ok;
+        if let Some(e) = &o.rec { got = e.seq(); }
+        core::mem::forget(o);
+    }
+    if l == 7 {
+        let buf: [u8; 23] = [0xd6, 0x84, 1, 2, 3, 4, 0x87, v[0], v[1], v[2], v[3], v[4], v[5], v[6], 0x82, b'i', b'd', 0x82, b'v', b'4', b'k', 0x81, BASE_PK];
+        let o = run_decode(&buf[..]);
+        ok = o.ok;
+        if let Some(e) = &o.rec { got = e.seq(); }
+        core::mem::forget(o);
+    }
+    if l == 8 {
+        let buf: [u8; 24] = [0xd7, 0x84, 1, 2, 3, 4, 0x88, v[0], v[1], v[2], v[3], v[4], v[5], v[6], v[7], 0x82, b'i', b'd', 0x82, b'v', b'4', b'k', 0x81, BASE_PK];
+        let o = run_decode(&buf[..]);
+        ok = o.ok;
+        if let Some(e) = &o.rec { got = e.seq(); }
+        core::mem::forget(o);
+    }
+    let mut val: u64 = 0;
+    rep8!(|i: usize| if i < l { val = (val << 8) | v[i] as u64; });
+    let canonical = l == 0 || (v[0] != 0 && !(l == 1 && v[0] < 0x80));
+    let vret = unsafe { V_RET };
+    vcover!(ok && l == 8, "eight-byte sequence number accepted");
+    vcover!(ok && l == 0, "zero accepted as empty string");
+    vcover!(!ok && vret && l == 2, "leading zero rejected");
+    assert!(ok == (canonical && vret), "C02: the sequence number must be a canonical integer below 2^64");
+    assert!(!ok || got == val, "C07: decoding preserves the sequence number for every 64-bit value");
+}
+
+// ------------------------------------------------------------------------------------------------
+// Concrete probe records (generated; each folds completely in the symbolic executor, so the
+// decoder is decided on them in seconds, whatever a changed decoder does): one record per
+// structural rule of C02 and per reserved key, valid and invalid forms, all correctly "signed"
+// (uninterpreted verifier answering yes), so that only the rule under test is violated.
+// ------------------------------------------------------------------------------------------------
+
+#[inline(always)]
+fn probe_accepts(buf: &[u8], key: &str, raw: &[u8], check_raw: bool) -> bool {
+    let o = run_decode(buf);
+    let mut good = o.ok && o.consumed_all;
+    if let Some(e) = &o.rec {
+        good = good && e.size() == buf.len();
+        if check_raw {
+            good = good && e.get_raw_rlp(key) == Some(raw);
+        }
+    }
+    core::mem::forget(o);
+    good
+}
+#[inline(always)]
+fn probe_rejects(buf: &[u8]) -> bool {
+    let o = run_decode(buf);
+    let ok = o.ok;
+    core::mem::forget(o);
+    !ok
+}
+fn oracle_yes() {
+    unsafe {
+        SIGMODE = ORACLE;
+        V_RET = true;
+        V_CALLS = 0;
+    }
+}
+/// accepted: base
+#[cfg_attr(kani, kani::proof)]
+#[cfg_attr(kani, kani::stub(enr::digest, digest_stub))]
+#[cfg_attr(kani, kani::stub(enr::Enr::id, id_stub))]
+pub fn dp_ok_base() {
+    oracle_yes();
+    let good = probe_accepts(&[0xd0, 0x84, 0x01, 0x02, 0x03, 0x04, 0x81, 0x90, 0x82, 0x69, 0x64, 0x82, 0x76, 0x34, 0x6b, 0x81, 0x99], "", &[], false);
+    assert!(good, "C02: well-formed records are accepted, consumed exactly and report their values verbatim");
+}
+
+/// accepted: tcp 8080
+#[cfg_attr(kani, kani::proof)]
+#[cfg_attr(kani, kani::stub(enr::digest, digest_stub))]
+#[cfg_attr(kani, kani::stub(enr::Enr::id, id_stub))]
+pub fn dp_ok_tcp_8080() {
+    oracle_yes();
+    let good = probe_accepts(&[0xd7, 0x84, 0x01, 0x02, 0x03, 0x04, 0x81, 0x90, 0x82, 0x69, 0x64, 0x82, 0x76, 0x34, 0x6b, 0x81, 0x99, 0x83, 0x74, 0x63, 0x70, 0x82, 0x1f, 0x90], "tcp", &[0x82, 0x1f, 0x90], true);
+    assert!(good, "C02: well-formed records are accepted, consumed exactly and report their values verbatim");
+}
+
+/// accepted: udp6 5
+#[cfg_attr(kani, kani::proof)]
+#[cfg_attr(kani, kani::stub(enr::digest, digest_stub))]
+#[cfg_attr(kani, kani::stub(enr::Enr::id, id_stub))]
+pub fn dp_ok_udp6_5() {
+    oracle_yes();
+    let good = probe_accepts(&[0xd6, 0x84, 0x01, 0x02, 0x03, 0x04, 0x81, 0x90, 0x82, 0x69, 0x64, 0x82, 0x76, 0x34, 0x6b, 0x81, 0x99, 0x84, 0x75, 0x64, 0x70, 0x36, 0x05], "udp6", &[0x05], true);
+    assert!(good, "C02: well-formed records are accepted, consumed exactly and report their values verbatim");
+}
+
+/// accepted: udp 0 as empty string
+#[cfg_attr(kani, kani::proof)]
+#[cfg_attr(kani, kani::stub(enr::digest, digest_stub))]
+#[cfg_attr(kani, kani::stub(enr::Enr::id, id_stub))]
+pub fn dp_ok_udp_0_as_empty_string() {
+    oracle_yes();
+    let good = probe_accepts(&[0xd5, 0x84, 0x01, 0x02, 0x03, 0x04, 0x81, 0x90, 0x82, 0x69, 0x64, 0x82, 0x76, 0x34, 0x6b, 0x81, 0x99, 0x83, 0x75, 0x64, 0x70, 0x80], "udp", &[0x80], true);
+    assert!(good, "C02: well-formed records are accepted, consumed exactly and report their values verbatim");
+}
+
+/// accepted: ip 127.0.0.1
+#[cfg_attr(kani, kani::proof)]
+#[cfg_attr(kani, kani::stub(enr::digest, digest_stub))]
+#[cfg_attr(kani, kani::stub(enr::Enr::id, id_stub))]
+pub fn dp_ok_ip_127_0_0_1() {
+    oracle_yes();
+    let good = probe_accepts(&[0xd8, 0x84, 0x01, 0x02, 0x03, 0x04, 0x81, 0x90, 0x82, 0x69, 0x64, 0x82, 0x76, 0x34, 0x82, 0x69, 0x70, 0x84, 0x7f, 0x00, 0x00, 0x01, 0x6b, 0x81, 0x99], "ip", &[0x84, 0x7f, 0x00, 0x00, 0x01], true);
+    assert!(good, "C02: well-formed records are accepted, consumed exactly and report their values verbatim");
+}
+
+/// accepted: custom empty list
+#[cfg_attr(kani, kani::proof)]
+#[cfg_attr(kani, kani::stub(enr::digest, digest_stub))]
+#[cfg_attr(kani, kani::stub(enr::Enr::id, id_stub))]
+pub fn dp_ok_custom_empty_list() {
+    oracle_yes();
+    let good = probe_accepts(&[0xd2, 0x84, 0x01, 0x02, 0x03, 0x04, 0x81, 0x90, 0x82, 0x69, 0x64, 0x82, 0x76, 0x34, 0x6b, 0x81, 0x99, 0x78, 0xc0], "x", &[0xc0], true);
+    assert!(good, "C02: well-formed records are accepted, consumed exactly and report their values verbatim");
+}
+
+/// accepted: custom nested lists
+#[cfg_attr(kani, kani::proof)]
+#[cfg_attr(kani, kani::stub(enr::digest, digest_stub))]
+#[cfg_attr(kani, kani::stub(enr::Enr::id, id_stub))]
+pub fn dp_ok_custom_nested_lists() {
+    oracle_yes();
+    let good = probe_accepts(&[0xd4, 0x84, 0x01, 0x02, 0x03, 0x04, 0x81, 0x90, 0x82, 0x69, 0x64, 0x82, 0x76, 0x34, 0x6b, 0x81, 0x99, 0x78, 0xc2, 0xc0, 0xc0], "x", &[0xc2, 0xc0, 0xc0], true);
+    assert!(good, "C02: well-formed records are accepted, consumed exactly and report their values verbatim");
+}
+
+/// accepted: custom empty string
+#[cfg_attr(kani, kani::proof)]
+#[cfg_attr(kani, kani::stub(enr::digest, digest_stub))]
+#[cfg_attr(kani, kani::stub(enr::Enr::id, id_stub))]
+pub fn dp_ok_custom_empty_string() {
+    oracle_yes();
+    let good = probe_accepts(&[0xd2, 0x84, 0x01, 0x02, 0x03, 0x04, 0x81, 0x90, 0x82, 0x69, 0x64, 0x82, 0x76, 0x34, 0x6b, 0x81, 0x99, 0x78, 0x80], "x", &[0x80], true);
+    assert!(good, "C02: well-formed records are accepted, consumed exactly and report their values verbatim");
+}
+
+/// accepted: custom 3-byte string
+#[cfg_attr(kani, kani::proof)]
+#[cfg_attr(kani, kani::stub(enr::digest, digest_stub))]
+#[cfg_attr(kani, kani::stub(enr::Enr::id, id_stub))]
+pub fn dp_ok_custom_3_byte_string() {
+    oracle_yes();
+    let good = probe_accepts(&[0xd5, 0x84, 0x01, 0x02, 0x03, 0x04, 0x81, 0x90, 0x82, 0x69, 0x64, 0x82, 0x76, 0x34, 0x6b, 0x81, 0x99, 0x78, 0x83, 0x01, 0x02, 0x03], "x", &[0x83, 0x01, 0x02, 0x03], true);
+    assert!(good, "C02: well-formed records are accepted, consumed exactly and report their values verbatim");
+}
+
+/// accepted: custom single byte
+#[cfg_attr(kani, kani::proof)]
+#[cfg_attr(kani, kani::stub(enr::digest, digest_stub))]
+#[cfg_attr(kani, kani::stub(enr::Enr::id, id_stub))]
+pub fn dp_ok_custom_single_byte() {
+    oracle_yes();
+    let good = probe_accepts(&[0xd2, 0x84, 0x01, 0x02, 0x03, 0x04, 0x81, 0x90, 0x82, 0x69, 0x64, 0x82, 0x76, 0x34, 0x6b, 0x81, 0x99, 0x78, 0x05], "x", &[0x05], true);
+    assert!(good, "C02: well-formed records are accepted, consumed exactly and report their values verbatim");
+}
+
+/// accepted: seq 2^64-1
+#[cfg_attr(kani, kani::proof)]
+#[cfg_attr(kani, kani::stub(enr::digest, digest_stub))]
+#[cfg_attr(kani, kani::stub(enr::Enr::id, id_stub))]
+pub fn dp_ok_seq_2_64_1() {
+    oracle_yes();
+    let good = probe_accepts(&[0xd7, 0x84, 0x01, 0x02, 0x03, 0x04, 0x88, 0xff, 0xff, 0xff, 0xff, 0xff, 0xff, 0xff, 0xff, 0x82, 0x69, 0x64, 0x82, 0x76, 0x34, 0x6b, 0x81, 0x99], "", &[], false);
+    assert!(good, "C02: well-formed records are accepted, consumed exactly and report their values verbatim");
+}
+
+/// accepted: seq 0
+#[cfg_attr(kani, kani::proof)]
+#[cfg_attr(kani, kani::stub(enr::digest, digest_stub))]
+#[cfg_attr(kani, kani::stub(enr::Enr::id, id_stub))]
+pub fn dp_ok_seq_0() {
+    oracle_yes();
+    let good = probe_accepts(&[0xcf, 0x84, 0x01, 0x02, 0x03, 0x04, 0x80, 0x82, 0x69, 0x64, 0x82, 0x76, 0x34, 0x6b, 0x81, 0x99], "", &[], false);
+    assert!(good, "C02: well-formed records are accepted, consumed exactly and report their values verbatim");
+}
+
+/// accepted: two custom keys
+#[cfg_attr(kani, kani::proof)]
+#[cfg_attr(kani, kani::stub(enr::digest, digest_stub))]
+#[cfg_attr(kani, kani::stub(enr::Enr::id, id_stub))]
+pub fn dp_ok_two_custom_keys() {
+    oracle_yes();
+    let good = probe_accepts(&[0xd4, 0x84, 0x01, 0x02, 0x03, 0x04, 0x81, 0x90, 0x82, 0x69, 0x64, 0x82, 0x76, 0x34, 0x6b, 0x81, 0x99, 0x78, 0x01, 0x79, 0x02], "y", &[0x02], true);
+    assert!(good, "C02: well-formed records are accepted, consumed exactly and report their values verbatim");
+}
+
+/// rejected: udp6 >= 2^16
+#[cfg_attr(kani, kani::proof)]
+#[cfg_attr(kani, kani::stub(enr::digest, digest_stub))]
+#[cfg_attr(kani, kani::stub(enr::Enr::id, id_stub))]
+pub fn dp_no_udp6_2_16() {
+    oracle_yes();
+    let good = probe_rejects(&[0xd9, 0x84, 0x01, 0x02, 0x03, 0x04, 0x81, 0x90, 0x82, 0x69, 0x64, 0x82, 0x76, 0x34, 0x6b, 0x81, 0x99, 0x84, 0x75, 0x64, 0x70, 0x36, 0x83, 0x01, 0x00, 0x00]);
+    assert!(good, "C02: records that break a structural rule are rejected although their signature verifies");
+}
+
+/// rejected: udp6 leading zero
+#[cfg_attr(kani, kani::proof)]
+#[cfg_attr(kani, kani::stub(enr::digest, digest_stub))]
+#[cfg_attr(kani, kani::stub(enr::Enr::id, id_stub))]
+pub fn dp_no_udp6_leading_zero() {
+    oracle_yes();
+    let good = probe_rejects(&[0xd8, 0x84, 0x01, 0x02, 0x03, 0x04, 0x81, 0x90, 0x82, 0x69, 0x64, 0x82, 0x76, 0x34, 0x6b, 0x81, 0x99, 0x84, 0x75, 0x64, 0x70, 0x36, 0x82, 0x00, 0x50]);
+    assert!(good, "C02: records that break a structural rule are rejected although their signature verifies");
+}
+
+/// rejected: udp6 single zero byte
+#[cfg_attr(kani, kani::proof)]
+#[cfg_attr(kani, kani::stub(enr::digest, digest_stub))]
+#[cfg_attr(kani, kani::stub(enr::Enr::id, id_stub))]
+pub fn dp_no_udp6_single_zero_byte() {
+    oracle_yes();
+    let good = probe_rejects(&[0xd6, 0x84, 0x01, 0x02, 0x03, 0x04, 0x81, 0x90, 0x82, 0x69, 0x64, 0x82, 0x76, 0x34, 0x6b, 0x81, 0x99, 0x84, 0x75, 0x64, 0x70, 0x36, 0x00]);
+    assert!(good, "C02: records that break a structural rule are rejected although their signature verifies");
+}
+
+/// rejected: udp6 list
+#[cfg_attr(kani, kani::proof)]
+#[cfg_attr(kani, kani::stub(enr::digest, digest_stub))]
+#[cfg_attr(kani, kani::stub(enr::Enr::id, id_stub))]
+pub fn dp_no_udp6_list() {
+    oracle_yes();
+    let good = probe_rejects(&[0xd7, 0x84, 0x01, 0x02, 0x03, 0x04, 0x81, 0x90, 0x82, 0x69, 0x64, 0x82, 0x76, 0x34, 0x6b, 0x81, 0x99, 0x84, 0x75, 0x64, 0x70, 0x36, 0xc1, 0x05]);
+    assert!(good, "C02: records that break a structural rule are rejected although their signature verifies");
+}
+
+/// rejected: udp leading zero
+#[cfg_attr(kani, kani::proof)]
+#[cfg_attr(kani, kani::stub(enr::digest, digest_stub))]
+#[cfg_attr(kani, kani::stub(enr::Enr::id, id_stub))]
+pub fn dp_no_udp_leading_zero() {
+    oracle_yes();
+    let good = probe_rejects(&[0xd7, 0x84, 0x01, 0x02, 0x03, 0x04, 0x81, 0x90, 0x82, 0x69, 0x64, 0x82, 0x76, 0x34, 0x6b, 0x81, 0x99, 0x83, 0x75, 0x64, 0x70, 0x82, 0x00, 0x50]);
+    assert!(good, "C02: records that break a structural rule are rejected although their signature verifies");
+}
+
+/// rejected: tcp leading zero
+#[cfg_attr(kani, kani::proof)]
+#[cfg_attr(kani, kani::stub(enr::digest, digest_stub))]
+#[cfg_attr(kani, kani::stub(enr::Enr::id, id_stub))]
+pub fn dp_no_tcp_leading_zero() {
+    oracle_yes();
+    let good = probe_rejects(&[0xd7, 0x84, 0x01, 0x02, 0x03, 0x04, 0x81, 0x90, 0x82, 0x69, 0x64, 0x82, 0x76, 0x34, 0x6b, 0x81, 0x99, 0x83, 0x74, 0x63, 0x70, 0x82, 0x00, 0x50]);
+    assert!(good, "C02: records that break a structural rule are rejected although their signature verifies");
+}
+
+/// rejected: tcp6 three bytes
+#[cfg_attr(kani, kani::proof)]
+#[cfg_attr(kani, kani::stub(enr::digest, digest_stub))]
+#[cfg_attr(kani, kani::stub(enr::Enr::id, id_stub))]
+pub fn dp_no_tcp6_three_bytes() {
+    oracle_yes();
+    let good = probe_rejects(&[0xd9, 0x84, 0x01, 0x02, 0x03, 0x04, 0x81, 0x90, 0x82, 0x69, 0x64, 0x82, 0x76, 0x34, 0x6b, 0x81, 0x99, 0x84, 0x74, 0x63, 0x70, 0x36, 0x83, 0x01, 0x00, 0x00]);
+    assert!(good, "C02: records that break a structural rule are rejected although their signature verifies");
+}
+
+/// rejected: tcp non-canonical single byte
+#[cfg_attr(kani, kani::proof)]
+#[cfg_attr(kani, kani::stub(enr::digest, digest_stub))]
+#[cfg_attr(kani, kani::stub(enr::Enr::id, id_stub))]
+pub fn dp_no_tcp_non_canonical_single_byte() {
+    oracle_yes();
+    let good = probe_rejects(&[0xd6, 0x84, 0x01, 0x02, 0x03, 0x04, 0x81, 0x90, 0x82, 0x69, 0x64, 0x82, 0x76, 0x34, 0x6b, 0x81, 0x99, 0x83, 0x74, 0x63, 0x70, 0x81, 0x05]);
+    assert!(good, "C02: records that break a structural rule are rejected although their signature verifies");
+}
+
+/// rejected: ip 3 bytes
+#[cfg_attr(kani, kani::proof)]
+#[cfg_attr(kani, kani::stub(enr::digest, digest_stub))]
+#[cfg_attr(kani, kani::stub(enr::Enr::id, id_stub))]
+pub fn dp_no_ip_3_bytes() {
+    oracle_yes();
+    let good = probe_rejects(&[0xd7, 0x84, 0x01, 0x02, 0x03, 0x04, 0x81, 0x90, 0x82, 0x69, 0x64, 0x82, 0x76, 0x34, 0x82, 0x69, 0x70, 0x83, 0x7f, 0x00, 0x00, 0x6b, 0x81, 0x99]);
+    assert!(good, "C02: records that break a structural rule are rejected although their signature verifies");
+}
+
+/// rejected: ip 5 bytes
+#[cfg_attr(kani, kani::proof)]
+#[cfg_attr(kani, kani::stub(enr::digest, digest_stub))]
+#[cfg_attr(kani, kani::stub(enr::Enr::id, id_stub))]
+pub fn dp_no_ip_5_bytes() {
+    oracle_yes();
+    let good = probe_rejects(&[0xd9, 0x84, 0x01, 0x02, 0x03, 0x04, 0x81, 0x90, 0x82, 0x69, 0x64, 0x82, 0x76, 0x34, 0x82, 0x69, 0x70, 0x85, 0x7f, 0x00, 0x00, 0x01, 0x01, 0x6b, 0x81, 0x99]);
+    assert!(good, "C02: records that break a structural rule are rejected although their signature verifies");
+}
+
+/// rejected: ip list
+#[cfg_attr(kani, kani::proof)]
+#[cfg_attr(kani, kani::stub(enr::digest, digest_stub))]
+#[cfg_attr(kani, kani::stub(enr::Enr::id, id_stub))]
+pub fn dp_no_ip_list() {
+    oracle_yes();
+    let good = probe_rejects(&[0xd8, 0x84, 0x01, 0x02, 0x03, 0x04, 0x81, 0x90, 0x82, 0x69, 0x64, 0x82, 0x76, 0x34, 0x82, 0x69, 0x70, 0xc4, 0x7f, 0x00, 0x00, 0x01, 0x6b, 0x81, 0x99]);
+    assert!(good, "C02: records that break a structural rule are rejected although their signature verifies");
+}
+
+/// rejected: ip6 of 4 bytes
+#[cfg_attr(kani, kani::proof)]
+#[cfg_attr(kani, kani::stub(enr::digest, digest_stub))]
+#[cfg_attr(kani, kani::stub(enr::Enr::id, id_stub))]
+pub fn dp_no_ip6_of_4_bytes() {
+    oracle_yes();
+    let good = probe_rejects(&[0xd9, 0x84, 0x01, 0x02, 0x03, 0x04, 0x81, 0x90, 0x82, 0x69, 0x64, 0x82, 0x76, 0x34, 0x83, 0x69, 0x70, 0x36, 0x84, 0x01, 0x02, 0x03, 0x04, 0x6b, 0x81, 0x99]);
+    assert!(good, "C02: records that break a structural rule are rejected although their signature verifies");
+}
+
+/// rejected: duplicate key
+#[cfg_attr(kani, kani::proof)]
+#[cfg_attr(kani, kani::stub(enr::digest, digest_stub))]
+#[cfg_attr(kani, kani::stub(enr::Enr::id, id_stub))]
+pub fn dp_no_duplicate_key() {
+    oracle_yes();
+    let good = probe_rejects(&[0xd4, 0x84, 0x01, 0x02, 0x03, 0x04, 0x81, 0x90, 0x82, 0x69, 0x64, 0x82, 0x76, 0x34, 0x6b, 0x81, 0x99, 0x78, 0x01, 0x78, 0x02]);
+    assert!(good, "C02: records that break a structural rule are rejected although their signature verifies");
+}
+
+/// rejected: unsorted keys
+#[cfg_attr(kani, kani::proof)]
+#[cfg_attr(kani, kani::stub(enr::digest, digest_stub))]
+#[cfg_attr(kani, kani::stub(enr::Enr::id, id_stub))]
+pub fn dp_no_unsorted_keys() {
+    oracle_yes();
+    let good = probe_rejects(&[0xd4, 0x84, 0x01, 0x02, 0x03, 0x04, 0x81, 0x90, 0x82, 0x69, 0x64, 0x82, 0x76, 0x34, 0x6b, 0x81, 0x99, 0x79, 0x01, 0x78, 0x02]);
+    assert!(good, "C02: records that break a structural rule are rejected although their signature verifies");
+}
+
+/// rejected: k before id
+#[cfg_attr(kani, kani::proof)]
+#[cfg_attr(kani, kani::stub(enr::digest, digest_stub))]
+#[cfg_attr(kani, kani::stub(enr::Enr::id, id_stub))]
+pub fn dp_no_k_before_id() {
+    oracle_yes();
+    let good = probe_rejects(&[0xd0, 0x84, 0x01, 0x02, 0x03, 0x04, 0x81, 0x90, 0x6b, 0x81, 0x99, 0x82, 0x69, 0x64, 0x82, 0x76, 0x34]);
+    assert!(good, "C02: records that break a structural rule are rejected although their signature verifies");
+}
+
+/// rejected: missing value
+#[cfg_attr(kani, kani::proof)]
+#[cfg_attr(kani, kani::stub(enr::digest, digest_stub))]
+#[cfg_attr(kani, kani::stub(enr::Enr::id, id_stub))]
+pub fn dp_no_missing_value() {
+    oracle_yes();
+    let good = probe_rejects(&[0xd1, 0x84, 0x01, 0x02, 0x03, 0x04, 0x81, 0x90, 0x82, 0x69, 0x64, 0x82, 0x76, 0x34, 0x6b, 0x81, 0x99, 0x78]);
+    assert!(good, "C02: records that break a structural rule are rejected although their signature verifies");
+}
+
+/// rejected: missing id
+#[cfg_attr(kani, kani::proof)]
+#[cfg_attr(kani, kani::stub(enr::digest, digest_stub))]
+#[cfg_attr(kani, kani::stub(enr::Enr::id, id_stub))]
+pub fn dp_no_missing_id() {
+    oracle_yes();
+    let good = probe_rejects(&[0xca, 0x84, 0x01, 0x02, 0x03, 0x04, 0x81, 0x90, 0x6b, 0x81, 0x99]);
+    assert!(good, "C02: records that break a structural rule are rejected although their signature verifies");
+}
+
+/// rejected: id v5
+#[cfg_attr(kani, kani::proof)]
+#[cfg_attr(kani, kani::stub(enr::digest, digest_stub))]
+#[cfg_attr(kani, kani::stub(enr::Enr::id, id_stub))]
+pub fn dp_no_id_v5() {
+    oracle_yes();
+    let good = probe_rejects(&[0xd0, 0x84, 0x01, 0x02, 0x03, 0x04, 0x81, 0x90, 0x82, 0x69, 0x64, 0x82, 0x76, 0x35, 0x6b, 0x81, 0x99]);
+    assert!(good, "C02: records that break a structural rule are rejected although their signature verifies");
+}
+
+/// rejected: id is a list
+#[cfg_attr(kani, kani::proof)]
+#[cfg_attr(kani, kani::stub(enr::digest, digest_stub))]
+#[cfg_attr(kani, kani::stub(enr::Enr::id, id_stub))]
+pub fn dp_no_id_is_a_list() {
+    oracle_yes();
+    let good = probe_rejects(&[0xd0, 0x84, 0x01, 0x02, 0x03, 0x04, 0x81, 0x90, 0x82, 0x69, 0x64, 0xc2, 0x76, 0x34, 0x6b, 0x81, 0x99]);
+    assert!(good, "C02: records that break a structural rule are rejected although their signature verifies");
+}
+
+/// rejected: missing public key
+#[cfg_attr(kani, kani::proof)]
+#[cfg_attr(kani, kani::stub(enr::digest, digest_stub))]
+#[cfg_attr(kani, kani::stub(enr::Enr::id, id_stub))]
+pub fn dp_no_missing_public_key() {
+    oracle_yes();
+    let good = probe_rejects(&[0xcd, 0x84, 0x01, 0x02, 0x03, 0x04, 0x81, 0x90, 0x82, 0x69, 0x64, 0x82, 0x76, 0x34]);
+    assert!(good, "C02: records that break a structural rule are rejected although their signature verifies");
+}
+
+/// rejected: public key non-canonical
+#[cfg_attr(kani, kani::proof)]
+#[cfg_attr(kani, kani::stub(enr::digest, digest_stub))]
+#[cfg_attr(kani, kani::stub(enr::Enr::id, id_stub))]
+pub fn dp_no_public_key_non_canonical() {
+    oracle_yes();
+    let good = probe_rejects(&[0xd0, 0x84, 0x01, 0x02, 0x03, 0x04, 0x81, 0x90, 0x82, 0x69, 0x64, 0x82, 0x76, 0x34, 0x6b, 0x81, 0x05]);
+    assert!(good, "C02: records that break a structural rule are rejected although their signature verifies");
+}
+
+/// rejected: public key below 0x80
+#[cfg_attr(kani, kani::proof)]
+#[cfg_attr(kani, kani::stub(enr::digest, digest_stub))]
+#[cfg_attr(kani, kani::stub(enr::Enr::id, id_stub))]
+pub fn dp_no_public_key_below_0x80() {
+    oracle_yes();
+    let good = probe_rejects(&[0xcf, 0x84, 0x01, 0x02, 0x03, 0x04, 0x81, 0x90, 0x82, 0x69, 0x64, 0x82, 0x76, 0x34, 0x6b, 0x05]);
+    assert!(good, "C02: records that break a structural rule are rejected although their signature verifies");
+}
+
+/// rejected: signature is a list
+#[cfg_attr(kani, kani::proof)]
+#[cfg_attr(kani, kani::stub(enr::digest, digest_stub))]
+#[cfg_attr(kani, kani::stub(enr::Enr::id, id_stub))]
+pub fn dp_no_signature_is_a_list() {
+    oracle_yes();
+    let good = probe_rejects(&[0xd0, 0xc4, 0x01, 0x02, 0x03, 0x04, 0x81, 0x90, 0x82, 0x69, 0x64, 0x82, 0x76, 0x34, 0x6b, 0x81, 0x99]);
+    assert!(good, "C02: records that break a structural rule are rejected although their signature verifies");
+}
+
+/// rejected: seq leading zero
+#[cfg_attr(kani, kani::proof)]
+#[cfg_attr(kani, kani::stub(enr::digest, digest_stub))]
+#[cfg_attr(kani, kani::stub(enr::Enr::id, id_stub))]
+pub fn dp_no_seq_leading_zero() {
+    oracle_yes();
+    let good = probe_rejects(&[0xd1, 0x84, 0x01, 0x02, 0x03, 0x04, 0x82, 0x00, 0x01, 0x82, 0x69, 0x64, 0x82, 0x76, 0x34, 0x6b, 0x81, 0x99]);
+    assert!(good, "C02: records that break a structural rule are rejected although their signature verifies");
+}
+
+/// rejected: seq non-canonical single byte
+#[cfg_attr(kani, kani::proof)]
+#[cfg_attr(kani, kani::stub(enr::digest, digest_stub))]
+#[cfg_attr(kani, kani::stub(enr::Enr::id, id_stub))]
+pub fn dp_no_seq_non_canonical_single_byte() {
+    oracle_yes();
+    let good = probe_rejects(&[0xd0, 0x84, 0x01, 0x02, 0x03, 0x04, 0x81, 0x05, 0x82, 0x69, 0x64, 0x82, 0x76, 0x34, 0x6b, 0x81, 0x99]);
+    assert!(good, "C02: records that break a structural rule are rejected although their signature verifies");
+}
+
+/// rejected: seq of 9 bytes
+#[cfg_attr(kani, kani::proof)]
+#[cfg_attr(kani, kani::stub(enr::digest, digest_stub))]
+#[cfg_attr(kani, kani::stub(enr::Enr::id, id_stub))]
+pub fn dp_no_seq_of_9_bytes() {
+    oracle_yes();
+    let good = probe_rejects(&[0xd8, 0x84, 0x01, 0x02, 0x03, 0x04, 0x89, 0x01, 0x01, 0x01, 0x01, 0x01, 0x01, 0x01, 0x01, 0x01, 0x82, 0x69, 0x64, 0x82, 0x76, 0x34, 0x6b, 0x81, 0x99]);
+    assert!(good, "C02: records that break a structural rule are rejected although their signature verifies");
+}
+
+/// rejected: seq is a list
+#[cfg_attr(kani, kani::proof)]
+#[cfg_attr(kani, kani::stub(enr::digest, digest_stub))]
+#[cfg_attr(kani, kani::stub(enr::Enr::id, id_stub))]
+pub fn dp_no_seq_is_a_list() {
+    oracle_yes();
+    let good = probe_rejects(&[0xd0, 0x84, 0x01, 0x02, 0x03, 0x04, 0xc1, 0x05, 0x82, 0x69, 0x64, 0x82, 0x76, 0x34, 0x6b, 0x81, 0x99]);
+    assert!(good, "C02: records that break a structural rule are rejected although their signature verifies");
+}
+
+/// rejected: outer item is a string
+#[cfg_attr(kani, kani::proof)]
+#[cfg_attr(kani, kani::stub(enr::digest, digest_stub))]
+#[cfg_attr(kani, kani::stub(enr::Enr::id, id_stub))]
+pub fn dp_no_outer_item_is_a_string() {
+    oracle_yes();
+    let good = probe_rejects(&[0x90, 0x84, 0x01, 0x02, 0x03, 0x04, 0x81, 0x90, 0x82, 0x69, 0x64, 0x82, 0x76, 0x34, 0x6b, 0x81, 0x99]);
+    assert!(good, "C02: records that break a structural rule are rejected although their signature verifies");
+}
+
+/// rejected: outer header longer than content
+#[cfg_attr(kani, kani::proof)]
+#[cfg_attr(kani, kani::stub(enr::digest, digest_stub))]
+#[cfg_attr(kani, kani::stub(enr::Enr::id, id_stub))]
+pub fn dp_no_outer_header_longer_than_content() {
+    oracle_yes();
+    let good = probe_rejects(&[0xd1, 0x84, 0x01, 0x02, 0x03, 0x04, 0x81, 0x90, 0x82, 0x69, 0x64, 0x82, 0x76, 0x34, 0x6b, 0x81, 0x99]);
+    assert!(good, "C02: records that break a structural rule are rejected although their signature verifies");
+}
+
+/// rejected: empty list
+#[cfg_attr(kani, kani::proof)]
+#[cfg_attr(kani, kani::stub(enr::digest, digest_stub))]
+#[cfg_attr(kani, kani::stub(enr::Enr::id, id_stub))]
+pub fn dp_no_empty_list() {
+    oracle_yes();
+    let good = probe_rejects(&[0xc0]);
+    assert!(good, "C02: records that break a structural rule are rejected although their signature verifies");
+}
+
+/// rejected: only a signature
+#[cfg_attr(kani, kani::proof)]
+#[cfg_attr(kani, kani::stub(enr::digest, digest_stub))]
+#[cfg_attr(kani, kani::stub(enr::Enr::id, id_stub))]
+pub fn dp_no_only_a_signature() {
+    oracle_yes();
+    let good = probe_rejects(&[0xc5, 0x84, 0x01, 0x02, 0x03, 0x04]);
+    assert!(good, "C02: records that break a structural rule are rejected although their signature verifies");
+}
+
+/// rejected: custom non-canonical single byte
+#[cfg_attr(kani, kani::proof)]
+#[cfg_attr(kani, kani::stub(enr::digest, digest_stub))]
+#[cfg_attr(kani, kani::stub(enr::Enr::id, id_stub))]
+pub fn dp_no_custom_non_canonical_single_byte() {
+    oracle_yes();
+    let good = probe_rejects(&[0xd3, 0x84, 0x01, 0x02, 0x03, 0x04, 0x81, 0x90, 0x82, 0x69, 0x64, 0x82, 0x76, 0x34, 0x6b, 0x81, 0x99, 0x78, 0x81, 0x05]);
+    assert!(good, "C02: records that break a structural rule are rejected although their signature verifies");
+}
+
+/// rejected: custom non-canonical long form
+#[cfg_attr(kani, kani::proof)]
+#[cfg_attr(kani, kani::stub(enr::digest, digest_stub))]
+#[cfg_attr(kani, kani::stub(enr::Enr::id, id_stub))]
+pub fn dp_no_custom_non_canonical_long_form() {
+    oracle_yes();
+    let good = probe_rejects(&[0xd4, 0x84, 0x01, 0x02, 0x03, 0x04, 0x81, 0x90, 0x82, 0x69, 0x64, 0x82, 0x76, 0x34, 0x6b, 0x81, 0x99, 0x78, 0xb8, 0x01, 0x09]);
+    assert!(good, "C02: records that break a structural rule are rejected although their signature verifies");
+}
+
+/// rejected: custom value overruns the list
+#[cfg_attr(kani, kani::proof)]
+#[cfg_attr(kani, kani::stub(enr::digest, digest_stub))]
+#[cfg_attr(kani, kani::stub(enr::Enr::id, id_stub))]
+pub fn dp_no_custom_value_overruns_the_list() {
+    oracle_yes();
+    let good = probe_rejects(&[0xd4, 0x84, 0x01, 0x02, 0x03, 0x04, 0x81, 0x90, 0x82, 0x69, 0x64, 0x82, 0x76, 0x34, 0x6b, 0x81, 0x99, 0x78, 0x83, 0x01, 0x02]);
+    assert!(good, "C02: records that break a structural rule are rejected although their signature verifies");
+}
+
+/// rejected: key is a list
+#[cfg_attr(kani, kani::proof)]
+#[cfg_attr(kani, kani::stub(enr::digest, digest_stub))]
+#[cfg_attr(kani, kani::stub(enr::Enr::id, id_stub))]
+pub fn dp_no_key_is_a_list() {
+    oracle_yes();
+    let good = probe_rejects(&[0xd3, 0x84, 0x01, 0x02, 0x03, 0x04, 0x81, 0x90, 0x82, 0x69, 0x64, 0x82, 0x76, 0x34, 0x6b, 0x81, 0x99, 0xc1, 0x78, 0x01]);
+    assert!(good, "C02: records that break a structural rule are rejected although their signature verifies");
+}
+
+/// rejected: long-form header for a short list
+#[cfg_attr(kani, kani::proof)]
+#[cfg_attr(kani, kani::stub(enr::digest, digest_stub))]
+#[cfg_attr(kani, kani::stub(enr::Enr::id, id_stub))]
+pub fn dp_no_long_form_header_for_a_short_list() {
+    oracle_yes();
+    let good = probe_rejects(&[0xf8, 0x10, 0x84, 0x01, 0x02, 0x03, 0x04, 0x81, 0x90, 0x82, 0x69, 0x64, 0x82, 0x76, 0x34, 0x6b, 0x81, 0x99]);
+    assert!(good, "C02: records that break a structural rule are rejected although their signature verifies");
+}
+
